@@ -54,7 +54,7 @@ theorem indexByte_some {c : UInt8} : ∀ {t : Bytes} {i : Nat}, indexByte c t = 
   | b :: t, i, h => by
     by_cases hb : b = c
     · simp only [indexByte, hb, if_true, Option.some.injEq] at h
-      exact ⟨[], t, by simp [hb], by simp, by simpa using h⟩
+      exact ⟨[], t, by simp [hb], by simp, by simp [h]⟩
     · simp only [indexByte, hb, if_false, Option.map_eq_some_iff] at h
       obtain ⟨j, hj, rfl⟩ := h
       obtain ⟨pre, post, rfl, hn, rfl⟩ := indexByte_some hj
@@ -64,7 +64,7 @@ theorem drop_len_succ (pre : Bytes) (c : UInt8) (tail : Bytes) :
     (pre ++ c :: tail).drop (pre.length + 1) = tail := by
   induction pre with
   | nil => simp
-  | cons a t ih => simpa using ih
+  | cons a t ih => simp
 
 theorem take_len2 (pre : Bytes) (a b : UInt8) (r : Bytes) :
     (pre ++ a :: b :: r).take (pre.length + 2) = pre ++ [a, b] := by
@@ -272,8 +272,8 @@ theorem loop_spec : ∀ (fuel : Nat) (parts : List Part) (pos : Nat) (text : Byt
       | cons c left =>
         by_cases hcb : c = LBRACE
         · subst hcb
-          cases left with
-          | nil =>
+          by_cases hleft : left = []
+          · subst hleft
             -- "...${" : the text is kept as it is
             have hs : spec none pos (pre ++ [DOLLAR, LBRACE]) = .ok ((pre ++ [DOLLAR, LBRACE]).map .ch) := by
               rw [spec_pre pre pos [DOLLAR, LBRACE] hpre]
@@ -290,26 +290,25 @@ theorem loop_spec : ∀ (fuel : Nat) (parts : List Part) (pos : Nat) (text : Byt
             refine Or.inr ⟨parts ++ [.str (pre ++ [DOLLAR, LBRACE])], ?_, ?_⟩
             · simp [loop, hidx, hdrop]
             · rw [render_append, render_single, renderPart, ht]
-          | cons l0 left' =>
-            have hne : (LBRACE : UInt8) ≠ DOLLAR := by decide
-            have hsp : spec none pos (pre ++ DOLLAR :: LBRACE :: l0 :: left') =
-                (spec (some (pos + pre.length + 2)) (pos + pre.length + 2) (l0 :: left')).prepend
+          · have hne : (LBRACE : UInt8) ≠ DOLLAR := by decide
+            have hsp : spec none pos (pre ++ DOLLAR :: LBRACE :: left) =
+                (spec (some (pos + pre.length + 2)) (pos + pre.length + 2) left).prepend
                   (pre.map .ch) := by
               rw [spec_pre pre pos _ hpre]
               simp [spec, hne]
-            cases hend : indexByte RBRACE (l0 :: left') with
+            cases hend : indexByte RBRACE left with
             | none =>
               have hno := indexByte_none hend
               rw [hsp, spec_hole_open _ _ _ hno]
-              have : ¬ (pos + pre.length + 2 = pos + pre.length + 2 + (l0 :: left').length) := by
-                simp
+              have hpos : 0 < left.length := List.length_pos_iff.2 hleft
+              have : ¬ (pos + pre.length + 2 = pos + pre.length + 2 + left.length) := by omega
               simp only [this, if_false, SpecRes.prepend, Agrees]
-              refine ⟨parts ++ [.str (pre ++ DOLLAR :: LBRACE :: l0 :: left')], ?_⟩
-              simp [loop, hidx, hdrop, hend]
-              omega
+              refine ⟨parts ++ [.str (pre ++ DOLLAR :: LBRACE :: left)], ?_⟩
+              have h1 : pos + pre.length + 2 - 1 = pos + pre.length + 1 := by omega
+              simp [loop, hidx, hdrop, hend, hleft, h1]
             | some end_ =>
-              obtain ⟨e, rest, hl, he, rfl⟩ := indexByte_some hend
-              rw [hsp, hl, spec_hole_close e _ _ rest he, cons_eq_prepend, prepend_prepend]
+              obtain ⟨e, rest, rfl, he, rfl⟩ := indexByte_some hend
+              rw [hsp, spec_hole_close e _ _ rest he, cons_eq_prepend, prepend_prepend]
               -- parts after this pass
               let parts2 : List Part :=
                 (if pre.length ≠ 0 then parts ++ [.str (pre)] else parts) ++
@@ -334,11 +333,7 @@ theorem loop_spec : ∀ (fuel : Nat) (parts : List Part) (pos : Nat) (text : Byt
               have hloop : loop (fuel + 1) parts pos (pre ++ DOLLAR :: LBRACE :: (e ++ RBRACE :: rest)) extra =
                   (if rest ≠ [] then loop fuel parts2 (pos + (pre.length + 2) + e.length + 1) rest true
                    else some ⟨some parts2, none⟩) := by
-                have hne2 : e ++ RBRACE :: rest ≠ [] := by simp
-                rw [← hl] at hend ⊢
-                simp only [loop, hidx, hdrop, if_true, hend]
-                rw [hl] at *
-                simp only [hne2, if_false, htake, hdrop2, parts2]
+                simp only [loop, hidx, hdrop, if_true, hend, hleft, if_false, htake, hdrop2, parts2]
               rw [hloop]
               by_cases hrest : rest = []
               · subst hrest
@@ -450,23 +445,20 @@ theorem loop_pos (w : Bytes) : ∀ (fuel : Nat) (parts : List Part) (pos : Nat) 
       | cons c left =>
         by_cases hcb : c = LBRACE
         · subst hcb
-          cases left with
-          | nil =>
+          by_cases hleft : left = []
+          · subst hleft
             simp only [loop, hidx, hdrop, if_true] at hres
             exact hnormal hres
-          | cons l0 left' =>
-            cases hend : indexByte RBRACE (l0 :: left') with
+          · cases hend : indexByte RBRACE left with
             | none =>
-              simp only [loop, hidx, hdrop, hend, if_true, reduceCtorEq, if_false] at hres
+              simp only [loop, hidx, hdrop, hend, if_true, hleft, if_false] at hres
               exact hnormal hres
             | some end_ =>
-              obtain ⟨e, rest, hl, he, rfl⟩ := indexByte_some hend
+              obtain ⟨e, rest, rfl, he, rfl⟩ := indexByte_some hend
               have htake : (pre ++ DOLLAR :: LBRACE :: (e ++ RBRACE :: rest)).take pre.length = pre :=
                 List.take_left
               have hdrop2 : (e ++ RBRACE :: rest).drop (e.length + 1) = rest := drop_len_succ e RBRACE rest
-              have hne2 : e ++ RBRACE :: rest ≠ [] := by simp
-              rw [hl] at hidx hdrop hend htext
-              simp only [loop, hidx, hdrop, if_true, hend, hl, hne2, if_false, htake, hdrop2] at hres
+              simp only [loop, hidx, hdrop, if_true, hend, hleft, if_false, htake, hdrop2] at hres
               -- the new expression part is a good span of `w`
               have hspan : GoodSpan w (pos + (pre.length + 2)) (pos + (pre.length + 2) + e.length) := by
                 refine ⟨e, rest, by omega, ?_, rfl, he⟩
@@ -572,7 +564,7 @@ theorem C05_split_spec (t : Bytes) :
     by_cases hc : containsSpecial t = true
     · simp only [hc, if_true] at h ⊢
       rw [hsp, h]
-    · simp only [hc, if_false] at h ⊢
+    · simp only [hc] at h ⊢
       simp [implItems, hsp, h]
 
 /-- Position bookkeeping: every expression part `[off, end)` handed to `stringLitExpr` is
